@@ -534,6 +534,7 @@ impl Runner {
         res.knobs.insert("store".into(), format!("{:?}", knobs));
         let mut gen = Gen::new();
         gen.no_nulls = legacy_no_nulls;
+        crate::model::RICH_STRINGS.store(cfg.prop == "C20", std::sync::atomic::Ordering::Relaxed);
         // Known finding (scalar index + stable row ids + update returns stale matches, see
         // known_findings.jsonl): only the index checks themselves combine the two.
         if ctx.stable_row_ids && !matches!(cfg.prop.as_str(), "C19" | "C20") {
